@@ -128,7 +128,9 @@ def certObj (j : Json) : Nat × PubObj :=
 /-- Fresh set for a key (`KeyObjectSet::create`), signing inputs from the observed set. -/
 def issueInOf (t : Timing) (o : SetO) : IssueIn :=
   let now := o.thisU + 300
-  { now, jitterMin := (o.nextU - now) / 60 - t.nextHours * 60, crlHash := o.crlHash,
+  -- (`publish_next()` and `five_minutes_ago()` read the clock one after the other: the two instants
+  --  can straddle a second boundary, then next-update is one second short of a whole minute)
+  { now, jitterMin := (o.nextU - now + 1) / 60 - t.nextHours * 60, crlHash := o.crlHash,
     mftHash := o.mftHash, mftSerial := o.mftSerial }
 
 def findSetO (post : List (Nat × ClassO)) (rcn crl : Nat) : Option SetO :=
@@ -216,7 +218,7 @@ def diffSet (m : KeyObjectSet) (o : SetO) : List String :=
   (if m.crlName == o.crlName && m.mftName == o.mftName then [] else [s!"names {dec m.crlName}≠{dec o.crlName}"]) ++
   (if m.base == o.base then [] else [s!"base {dec m.base}≠{dec o.base}"]) ++
   (if m.revision.number == o.number then [] else [s!"number model={m.revision.number} impl={o.number}"]) ++
-  (if m.revision.thisUpdate == o.thisU && m.revision.nextUpdate == o.nextU then []
+  (if m.revision.thisUpdate == o.thisU && m.revision.nextUpdate ≤ o.nextU + 1 && o.nextU ≤ m.revision.nextUpdate + 1 then []
     else [s!"times model={m.revision.thisUpdate}..{m.revision.nextUpdate} impl={o.thisU}..{o.nextU}"]) ++
   (if sortBy revLt m.revocations == sortBy revLt o.revs then []
     else [s!"revocations model=[{showRevs m.revocations}] impl=[{showRevs o.revs}]"]) ++
